@@ -751,5 +751,11 @@ V("C05", "minuit-start-clamped", "fire", "C05.R3", "Minuit start values clamped 
   (OMI, "        minuit = iminuit.Minuit(wrapped_objective, init_pars, grad=jac, name=par_names)", "        init_pars = [min(max(v, lo + 1e-4 * (hi - lo)), hi - 1e-4 * (hi - lo)) for v, (lo, hi) in zip(init_pars, init_bounds)]\n        minuit = iminuit.Minuit(wrapped_objective, init_pars, grad=jac, name=par_names)"))
 V("C05", "fit-all-false-mask", "fire", "C05.R1", "an all-False mask is treated as no mask",
   ("src/pyhf/infer/mle.py", "    fixed_params = fixed_params or pdf.config.suggested_fixed()", "    fixed_params = fixed_params if (fixed_params is not None and any(fixed_params)) else pdf.config.suggested_fixed()"))
+V("C05", "fixed-poi-fit-memo-per-model", "fire", "C05.R1", "plain fixed-POI fits remembered per (model, data, POI value): not redone after set_poi / changed suggestions",
+  ("src/pyhf/infer/mle.py", '__all__ = ["fit", "fixed_poi_fit", "twice_nll"]\n', '__all__ = ["fit", "fixed_poi_fit", "twice_nll"]\n_PLAIN_FITS = {}\n'),
+  ("src/pyhf/infer/mle.py", "    init_pars = [*(init_pars or pdf.config.suggested_init())]\n    fixed_params = [*(fixed_params or pdf.config.suggested_fixed())]\n", "    plain = init_pars is None and par_bounds is None and fixed_params is None and not kwargs\n    if plain and (id(pdf), id(data), float(poi_val)) in _PLAIN_FITS:\n        return _PLAIN_FITS[(id(pdf), id(data), float(poi_val))]\n    init_pars = [*(init_pars or pdf.config.suggested_init())]\n    fixed_params = [*(fixed_params or pdf.config.suggested_fixed())]\n"),
+  ("src/pyhf/infer/mle.py", "    return fit(data, pdf, init_pars, par_bounds, fixed_params, **kwargs)\n", "    result = fit(data, pdf, init_pars, par_bounds, fixed_params, **kwargs)\n    if plain:\n        _PLAIN_FITS[(id(pdf), id(data), float(poi_val))] = result\n    return result\n"))
+V("C05", "fixed-poi-fit-list-copies", "silent", "", "fixed_poi_fit copies the defaults with list() instead of unpacking",
+  ("src/pyhf/infer/mle.py", "    init_pars = [*(init_pars or pdf.config.suggested_init())]\n    fixed_params = [*(fixed_params or pdf.config.suggested_fixed())]\n", "    init_pars = list(init_pars or pdf.config.suggested_init())\n    fixed_params = list(fixed_params or pdf.config.suggested_fixed())\n"))
 V("C13", "code4-exponent-mask-strict", "fire", "C13.R3", "code 4 takes exponent 1 (a constant) exactly at |alpha| = alpha0",
   ("src/pyhf/interpolators/code4.py", "            exponents >= self.__alpha0, exponents, self.ones", "            exponents > self.__alpha0, exponents, self.ones"))
